@@ -576,7 +576,21 @@ func init() {
 			pf.Cancellers, pf.CancelOps = [2]int{0, 1}, [2]int{1, 3}
 			pf.Cancel = []wop{{opCloseJob, 6}, {opPurge, 2}}
 			pf.Releaser = 100
-			return generate(r, pf)
+			second := r.Chance(35)
+			if second {
+				// barrier calls on an already paused worker and from two callers at once
+				pf.Ctrl = []wop{{opWUF, 3}, {opPauseAndWait, 4}, {opPause, 3}, {opStop, 1}, {opWaitAndStop, 1}, {opResume, 3}, {opRestart, 1}}
+				pf.GatedPct = 50
+			}
+			c, p := generate(r, pf)
+			if second {
+				var ops []Op
+				for i, n := 0, 1+r.Intn(3); i < n; i++ {
+					ops = append(ops, Op{K: pickW(r, []wop{{opPauseAndWait, 5}, {opPause, 2}, {opStop, 1}, {opResume, 2}})})
+				}
+				p.Tasks = append(p.Tasks, ops)
+			}
+			return c, p
 		},
 		NonTrivial: func(ep *Episode) bool {
 			for _, c := range ep.W.rec.calls {
@@ -597,10 +611,25 @@ func init() {
 			pf.Ctrl = []wop{{opPause, 2}, {opPauseAndWait, 4}, {opStop, 2}, {opWaitAndStop, 1}, {opResume, 4}, {opRestart, 3}, {opSettle, 2}}
 			pf.CtrlOps = [2]int{1, 8}
 			pf.CtrlGapPct = 50
+			switch r.Intn(10) {
+			case 0, 1:
+				// pending jobs must survive a pause/stop on the acknowledging queue kinds too
+				// (a delivery taken while the worker is being paused is still a pending job)
+				pf.WKinds = []int{wkPlain}
+				pf.QKinds = []int{qkPers, qkPersPrio, qkDist, qkDistPrio}
+			case 2, 3:
+				// jobs still running across Pause/Resume: after Resume the free slots must be
+				// used without waiting for the old jobs to end (gated quiescence, C03.b)
+				pf.GatedPct = 50
+				pf.Conc = []int{2, 3, 4}
+				pf.Ctrl = []wop{{opPause, 4}, {opResume, 4}, {opSettle, 3}, {opPauseAndWait, 1}}
+				pf.Releaser = 100
+			}
 			return generate(r, pf)
 		},
+		Owns:       []string{"C03.b"},
 		NonTrivial: func(ep *Episode) bool { return ep.W.rec.probes[pbBarrierWhilePending] > 0 },
-		Judge:      judgeOrderAfterResume,
+		Judge:      func(j *judgeCtx) { judgeOrderAfterResume(j); judgeConservation(j) },
 	})
 	// C10 — cancel / purge / queue close
 	register(&Property{ID: "C10", Rule: "episodes in which a Close/Purge/queue.Close call overlapped or preceded dispatch of a job it targeted; distinct = schedule/program hash",
@@ -732,6 +761,13 @@ func init() {
 			pf.ErrReaderPct = 60
 			pf.Samplers, pf.SampleOps = [2]int{0, 1}, [2]int{1, 3}
 			pf.Sample = []wop{{opSample, 3}, {opSettle, 2}}
+			if r.Chance(30) {
+				// callers polling the worker-level barrier contend for the worker's lock while
+				// jobs fail: the single panic of an episode must still reach Errs() (C07.f)
+				pf.Wait = []wop{{opResult, 5}, {opWait, 1}, {opWUFw, 5}}
+				pf.ErrReaderPct = 100
+				pf.ErrPct, pf.PanicPct = 20, 12
+			}
 			return generate(r, pf)
 		},
 		NonTrivial: func(ep *Episode) bool {
